@@ -289,6 +289,53 @@ def _bound_fields(ld, local):
     return {x for x in d[2] if isinstance(x, str) and x not in ("arm", "param")}
 
 
+def _name_helper_info(F, init):
+    """`helper(&roto_type, "NAME")`: does the crate-local helper compare the type's name with the name it is given and with the GLOBAL
+    scope, and does it hand out the type's arguments?"""
+    init = hir.peel_refs(hir.strip(init or {}))
+    if init.get("k") != "call":
+        return None
+    d = hir.call_def(init)
+    hb = F.body(d) if d else None
+    if hb is None or not hb.hir or not d.startswith("codegen::check::"):
+        return None
+    lits = [hir.strip(a).get("v") for a in init["args"] if hir.strip(a).get("k") == "lit" and isinstance(hir.strip(a).get("v"), str)]
+    if len(lits) != 1:
+        return None
+    hh = hb.hir["value"]
+    hld = hir.LocalDefs(hb.hir)
+    pidx = hir.param_index(hb.hir)
+    lit_pos = [i for i, a in enumerate(init["args"]) if hir.strip(a).get("k") == "lit"][0]
+    glob = any((hir.res_def(n) or "").endswith("ScopeRef::GLOBAL") for n in hir.walk(hh) if n.get("k") == "path")
+    # the comparison(s): == / != whose operands involve the `name`/`ident`/`scope` of the type on one side and the parameter / GLOBAL on the other
+    cmp_param = cmp_scope = False
+    def expanded(e, depth=0):
+        """nodes of e, plus the nodes of the initialisers of the locals it mentions (so `*name == builtin` sees the struct behind `builtin`)"""
+        out = []
+        for n in hir.walk(e):
+            out.append(n)
+            if n.get("k") == "path" and hir.res_local(n) is not None and depth < 4:
+                d_ = hld.get(hir.res_local(n))
+                if d_ and d_[1] is not None and not (d_[2] and d_[2][0] == "arm"):
+                    out += expanded(d_[1], depth + 1)
+        return out
+    for c in hir.nodes(hh, "bin"):
+        if c.get("op") not in ("==", "!="):
+            continue
+        ex = expanded(c)
+        fields = {n.get("n") for n in ex if n.get("k") == "field"} | {f[0] for n in ex if n.get("k") == "struct" for f in n["fields"]} \
+            | {x for n in ex if n.get("k") == "path" and hir.res_local(n) is not None for x in _bound_fields(hld, hir.res_local(n))}
+        uses_param = lit_pos in hir.param_roots(hb.hir, hld, c, pidx=pidx)
+        uses_glob = any((hir.res_def(n) or "").endswith("ScopeRef::GLOBAL") for n in ex if n.get("k") == "path")
+        if uses_param and ({"ident", "name"} & fields):
+            cmp_param = True
+        if uses_glob and ({"scope", "name"} & fields):
+            cmp_scope = True
+    returns_arguments = any(n.get("k") == "field" and n.get("n") == "arguments" for n in hir.walk(hh)) or \
+        any("arguments" in hir.pat_desc(p) for p in [x["pat"] for x in hir.nodes(hh, "letstmt")] + [a["pat"] for m in hir.nodes(hh, "match") for a in m["arms"]])
+    return {"literal": lits[0], "helper": d, "global": glob and cmp_scope, "by_param": cmp_param, "arguments": returns_arguments}
+
+
 def _constructor_helper(F, body):
     """The arm delegates the 'is this the built-in generic NAME, and what are its arguments' test to a crate-local helper:
     `let Some([a, b]) = helper(&roto_type, "NAME") else { return Err(..) }`. Returns None or a dict with the literal, whether
@@ -303,51 +350,85 @@ def _constructor_helper(F, body):
             # the fallback: every other arm
             cands.append((hir.strip(m["e"]), some[0]["pat"], {"k": "block", "stmts": [], "expr": rest[0]["body"], "_arms": rest}, {"pat": some[0]["pat"], "els": None, "line": m["line"], "_match": m}))
     for init, pat_, els_, l in cands:
-        if init.get("k") != "call":
+        info = _name_helper_info(F, init)
+        if info is None:
             continue
-        d = hir.call_def(init)
-        hb = F.body(d) if d else None
-        if hb is None or not hb.hir or not d.startswith("codegen::check::"):
-            continue
-        lits = [hir.strip(a).get("v") for a in init["args"] if hir.strip(a).get("k") == "lit" and isinstance(hir.strip(a).get("v"), str)]
-        if len(lits) != 1:
-            continue
-        hh = hb.hir["value"]
-        hld = hir.LocalDefs(hb.hir)
-        pidx = hir.param_index(hb.hir)
-        lit_pos = [i for i, a in enumerate(init["args"]) if hir.strip(a).get("k") == "lit"][0]
-        glob = any((hir.res_def(n) or "").endswith("ScopeRef::GLOBAL") for n in hir.walk(hh) if n.get("k") == "path")
-        # the comparison(s): == / != whose operands involve the `name`/`ident`/`scope` of the type on one side and the parameter / GLOBAL on the other
-        cmp_param = cmp_scope = False
-        def expanded(e, depth=0):
-            """nodes of e, plus the nodes of the initialisers of the locals it mentions (so `*name == builtin` sees the struct behind `builtin`)"""
-            out = []
-            for n in hir.walk(e):
-                out.append(n)
-                if n.get("k") == "path" and hir.res_local(n) is not None and depth < 4:
-                    d_ = hld.get(hir.res_local(n))
-                    if d_ and d_[1] is not None and not (d_[2] and d_[2][0] == "arm"):
-                        out += expanded(d_[1], depth + 1)
-            return out
-        for c in hir.nodes(hh, "bin"):
-            if c.get("op") not in ("==", "!="):
-                continue
-            ex = expanded(c)
-            fields = {n.get("n") for n in ex if n.get("k") == "field"} | {f[0] for n in ex if n.get("k") == "struct" for f in n["fields"]} \
-                | {x for n in ex if n.get("k") == "path" and hir.res_local(n) is not None for x in _bound_fields(hld, hir.res_local(n))}
-            uses_param = lit_pos in hir.param_roots(hb.hir, hld, c, pidx=pidx)
-            uses_glob = any((hir.res_def(n) or "").endswith("ScopeRef::GLOBAL") for n in ex if n.get("k") == "path")
-            if uses_param and ({"ident", "name"} & fields):
-                cmp_param = True
-            if uses_glob and ({"scope", "name"} & fields):
-                cmp_scope = True
-        returns_arguments = any(n.get("k") == "field" and n.get("n") == "arguments" for n in hir.walk(hh)) or \
-            any("arguments" in hir.pat_desc(p) for p in [x["pat"] for x in hir.nodes(hh, "letstmt")] + [a["pat"] for m in hir.nodes(hh, "match") for a in m["arms"]])
         fallback_err = None
         if "_match" in l:
             fallback_err = all("Err" in str(hir.result_desc(a["body"])) for a in els_["_arms"])
-        return {"let": l, "literal": lits[0], "helper": d, "global": glob and cmp_scope, "by_param": cmp_param, "arguments": returns_arguments,
-                "pattern": pat_, "match_fallback_err": fallback_err}
+        info.update({"let": l, "pattern": pat_, "match_fallback_err": fallback_err})
+        return info
+    return None
+
+
+def _args_checker_info(F, kpath):
+    """A shared checker `fn k(type_info, rust_components: &[TypeId], roto_arguments: Option<&[Type]>, mismatch) -> Result<..>`: does it
+    refuse a missing argument list and a different length, and does it check the components pairwise from the front, propagating
+    every failure?"""
+    kb = F.body(kpath)
+    if kb is None or not kb.hir:
+        return None
+    kh = kb.hir["value"]
+    kld = hir.LocalDefs(kb.hir)
+    pidx = hir.param_index(kb.hir)
+    ptys = [str(p_.get("ty") or "") for p_ in kb.hir.get("params", [])]
+    opt = [i for i, t in enumerate(ptys) if t.startswith("std::option::Option<&[") or t.startswith("Option<&[")]
+    rust = [i for i, t in enumerate(ptys) if t.startswith("&[") and "TypeId" in t]
+    if len(opt) != 1 or len(rust) != 1:
+        return None
+    none_err = False
+    for l in hir.nodes(kh, "letstmt"):
+        if l.get("els") and hir.diverges(l["els"]) and "Err" in str(hir.result_desc(l["els"])) and opt[0] in hir.param_roots(kb.hir, kld, l.get("init") or {}, pidx=pidx) \
+                and "Some" in hir.pat_desc(l["pat"]):
+            none_err = True
+    for m in hir.nodes(kh, "match"):
+        if opt[0] in hir.param_roots(kb.hir, kld, m["e"], pidx=pidx):
+            nones = [a for a in m["arms"] if hir.pat_desc(a["pat"]).endswith("None") or hir.pat_paths(a["pat"]) == ["_"]]
+            if nones and all("Err" in str(hir.result_desc(a["body"])) for a in nones):
+                none_err = True
+    len_err = False
+    for iff in hir.nodes(kh, "if"):
+        c = hir.strip(iff["cond"])
+        if c.get("k") == "bin" and c.get("op") in ("!=", "==") and sum(1 for m_ in hir.nodes(c, "mcall") if m_["m"] == "len") == 2:
+            roots = hir.param_roots(kb.hir, kld, c, pidx=pidx)
+            branch = iff["then"] if c["op"] == "!=" else iff.get("else")
+            if {opt[0], rust[0]} <= roots and branch is not None and hir.diverges(branch) and "Err" in str(hir.result_desc(branch)):
+                len_err = True
+    zipped = False
+    for z in hir.nodes(kh, "mcall"):
+        if z["m"] != "zip" or not z["args"]:
+            continue
+        sides = hir.param_roots(kb.hir, kld, z["recv"], pidx=pidx), hir.param_roots(kb.hir, kld, z["args"][0], pidx=pidx)
+        chain = {m_["m"] for m_ in hir.nodes(z, "mcall")}
+        if ({rust[0]} <= sides[0] and {opt[0]} <= sides[1] or {opt[0]} <= sides[0] and {rust[0]} <= sides[1]) and not (chain & {"rev", "skip", "step_by", "skip_while", "take", "cycle", "chain"}):
+            zipped = True
+    tried = try_inner_exprs(kh)
+    rec = [c for c in hir.nodes(kh, "call") if hir.call_def(c) == CHECK_ROTO_TYPE]
+    propagated = bool(rec) and all(any(contains_node(t, c) for t in tried) for c in rec)
+    return {"checker": kpath, "none_is_error": none_err, "length_mismatch_is_error": len_err, "pairwise_from_the_front": zipped, "recursive_checks": len(rec), "propagated": propagated}
+
+
+def _generic_args_form(F, body, rust_binds):
+    """The arm's value is `checker(type_info, &[c0, c1, ..], name_helper(&roto_type, "NAME"), mismatch)`."""
+    for c in hir.nodes(body, "call"):
+        d = hir.call_def(c) or ""
+        if not d.startswith("codegen::check::") or d == CHECK_ROTO_TYPE:
+            continue
+        info = None
+        comps = None
+        for a in c["args"]:
+            a_ = hir.peel_refs(hir.strip(a))
+            if a_.get("k") == "array":
+                comps = [hir.res_local(hir.peel_refs(hir.strip(e))) for e in a_["elems"]]
+            ni = _name_helper_info(F, a_)
+            if ni is not None:
+                info = ni
+        if info is None or comps is None:
+            continue
+        k = _args_checker_info(F, d)
+        if k is None:
+            continue
+        return {"call": c, "name": info, "components_in_order": comps == list(rust_binds), "n_components": len(comps), "checker": k}
     return None
 
 
@@ -403,6 +484,34 @@ def rule_g4(F):
             if not helper["global"]:
                 r.bad(CHECK_ROTO_TYPE, "arm %s|name" % v, relfile(b.file), helper["let"]["line"],
                       "%s accepts a type called `%s` from any scope (no comparison with ScopeRef::GLOBAL): a user enum that shadows the built-in passes the gate" % (helper["helper"], v))
+        generic = _generic_args_form(F, body, rust_binds) if (not names and helper is None) else None
+        if generic is not None:
+            gi, gk = generic["name"], generic["checker"]
+            r.inst("arm %s|generic checker" % v, {"name_helper": gi["helper"], "literal": gi["literal"], "global": gi["global"], "by_param": gi["by_param"], "components_in_order": generic["components_in_order"], "checker": gk})
+            ln = generic["call"]["line"]
+            if gi["literal"] != v:
+                r.bad(CHECK_ROTO_TYPE, "arm %s|name" % v, relfile(b.file), ln, "arm for %s accepts the Roto type named `%s`" % (v, gi["literal"]))
+            if not gi["by_param"]:
+                r.bad(CHECK_ROTO_TYPE, "arm %s|name" % v, relfile(b.file), ln, "%s does not compare the type's name with the name it is given" % gi["helper"])
+            if not gi["global"]:
+                r.bad(CHECK_ROTO_TYPE, "arm %s|name" % v, relfile(b.file), ln,
+                      "%s accepts a type called `%s` from any scope (no comparison with ScopeRef::GLOBAL): a user enum that shadows the built-in passes the gate" % (gi["helper"], v))
+            r.inst("arm %s|arity" % v)
+            if generic["n_components"] != arity or not gk["length_mismatch_is_error"] or not gk["none_is_error"]:
+                r.bad(CHECK_ROTO_TYPE, "arm %s|arity" % v, relfile(b.file), ln,
+                      "the shared checker is given %d components for a constructor of arity %d, or does not refuse a different number of Roto arguments / a type that is not this constructor (%s)" % (generic["n_components"], arity, gk))
+            for j in range(arity):
+                r.inst("arm %s|component %s" % (v, j), {"arm": v, "rust_component": j, "roto_argument": j, "via": gk["checker"]})
+            if not generic["components_in_order"] or not gk["pairwise_from_the_front"]:
+                r.bad(CHECK_ROTO_TYPE, "arm %s|pairing" % v, relfile(b.file), ln, "the components are not handed to the shared checker in declaration order, or it does not pair them with the Roto arguments from the front")
+            if not gk["propagated"]:
+                r.bad(CHECK_ROTO_TYPE, "arm %s|propagation" % v, relfile(b.file), ln, "the shared checker does not propagate the result of a component's check")
+            vp = hir.strip(body)
+            while vp.get("k") == "block" and not (vp.get("stmts") or []) and vp.get("expr") is not None:
+                vp = hir.strip(vp["expr"])
+            if vp is not generic["call"] and not any(contains_node(t, generic["call"]) for t in tried):
+                r.bad(CHECK_ROTO_TYPE, "arm %s|propagation" % v, relfile(b.file), ln, "the result of the shared checker is neither the arm's value nor `?`-propagated")
+            continue
         elif not names:
             r.bad(CHECK_ROTO_TYPE, "arm %s|name" % v, relfile(b.file), arm["line"], "arm does not compare the Roto type's name with the global `%s`" % v)
         for (op, lit, scope, node) in names:
@@ -510,12 +619,17 @@ def rule_g4(F):
     return r
 
 
-def leaf_table(F):
-    """rows (rust type, roto name) of the leaf table + fallback node."""
-    b = F.body(CHECK_ROTO_TYPE)
-    if b is None:
-        return None, None, None
-    h = b.hir["value"]
+def _typeid_of(e, typeids):
+    """The Rust type a TypeId expression stands for: a local bound to `TypeId::of::<X>()`, or that call itself."""
+    e = hir.peel_refs(hir.strip(e))
+    if e.get("k") == "call" and (hir.call_def(e) or "").endswith("TypeId::of"):
+        ga = e["f"].get("gargs") or []
+        return ga[0] if ga else None
+    loc = hir.res_local(e) if e.get("k") == "path" else None
+    return typeids.get(loc)
+
+
+def _leaf_table_in(h):
     # let NAME: TypeId = TypeId::of::<X>()
     typeids = {}
     for l in hir.nodes(h, "letstmt"):
@@ -532,12 +646,10 @@ def leaf_table(F):
         for arm in m["arms"]:
             g = arm.get("guard")
             if g and g.get("k") == "bin" and g.get("op") == "==":
-                loc = hir.res_local(hir.peel_refs(g["b"]))
-                if loc is None:
-                    loc = hir.res_local(hir.peel_refs(g["a"]))
+                ty = _typeid_of(g["b"], typeids) or _typeid_of(g["a"], typeids)
                 body = hir.strip(arm["body"])
-                if loc in typeids and body.get("k") == "lit":
-                    cand.append((typeids[loc], body["v"], arm["line"]))
+                if ty and body.get("k") == "lit":
+                    cand.append((ty, body["v"], arm["line"]))
             elif hir.pat_paths(arm["pat"]) == ["_"] and not g:
                 fb = arm
         if len(cand) >= 3:
@@ -546,7 +658,36 @@ def leaf_table(F):
             break
     if not rows:
         rows, fallback = _leaf_table_array(h, typeids)
-    return b, rows, fallback
+    return rows, fallback
+
+
+def leaf_table(F):
+    """rows (rust type, roto name) of the leaf table + fallback node.  The table is looked for in the signature gate itself and in the
+    private helpers of its module (a `fn name_of(TypeId) -> Option<&str>` holding the rows); the fallback of such a helper is what
+    its caller does with `None`."""
+    gate = F.body(CHECK_ROTO_TYPE)
+    if gate is None:
+        return None, None, None
+    cands = [gate] + [bb for bb in F.bodies_in(["src/codegen/check.rs"]) if bb.hir and bb.path != gate.path and "{closure" not in bb.path and "::tests::" not in bb.path]
+    for bb in cands:
+        rows, fallback = _leaf_table_in(bb.hir["value"])
+        if not rows:
+            continue
+        if fallback is None and bb.path != gate.path:
+            # what does the caller do when the helper finds no row?
+            for cb in cands:
+                for m in hir.nodes(cb.hir["value"], "match"):
+                    sc = hir.strip(m["e"])
+                    if sc.get("k") == "call" and (hir.call_def(sc) or "") == bb.path:
+                        for arm in m["arms"]:
+                            if hir.pat_desc(arm["pat"]).endswith("None") or hir.pat_paths(arm["pat"]) == ["_"]:
+                                fallback = arm
+                for l in hir.nodes(cb.hir["value"], "letstmt"):
+                    ini = hir.strip(l.get("init") or {})
+                    if l.get("els") and ini.get("k") == "call" and (hir.call_def(ini) or "") == bb.path:
+                        fallback = {"body": l["els"], "line": l["line"], "pat": l["pat"]}
+        return (gate if bb.path == gate.path else bb), rows, fallback
+    return gate, [], None
 
 
 def _leaf_table_array(h, typeids):
@@ -562,9 +703,9 @@ def _leaf_table_array(h, typeids):
             a, bb = [hir.strip(x) for x in e["elems"]]
             if bb.get("k") != "lit":
                 a, bb = bb, a
-            loc = hir.res_local(hir.peel_refs(a))
-            if bb.get("k") == "lit" and loc in typeids:
-                cand.append((typeids[loc], bb["v"], e["line"]))
+            ty_ = _typeid_of(a, typeids)
+            if bb.get("k") == "lit" and ty_:
+                cand.append((ty_, bb["v"], e["line"]))
             else:
                 cand = []
                 break
